@@ -119,6 +119,10 @@ def stepC38 (ts : List String) : String :=
     let step := fun (acc : ProposalMaker.State × Nat × List String) (t : String) =>
       match t.splitOn ":" with
       | ["o"] => (acc.1, acc.2.1, acc.2.2 ++ ["-"])
+      | ["c", d] =>
+        match d.toNat? with
+        | some d => ({ acc.1 with pool := BallotPool.cleanProposals acc.1.pool d }, acc.2.1, acc.2.2 ++ ["-"])
+        | none => (acc.1, acc.2.1, acc.2.2 ++ ["bad-op"])
       | [k, tr] =>
         match parseNats tr "." with
         | some [h, r, pr, pv] =>
